@@ -1,6 +1,7 @@
 """C17 — arbitrary server bytes produce only documented exceptions, never hangs, never peer-sized reads."""
 import bvsym as sx
 from bvsym import core
+from .common import reset_cookie_jar
 from .common import FakeSock, KeySource, Obligation, Spin, cover, new_ws, quiet_logging, server_frame
 
 PROPERTY = "C17"
@@ -204,7 +205,7 @@ def x_setcookie(i):
     import hashlib
     import websocket._handshake as HS
     quiet_logging()
-    HS.CookieJar.jar.clear()
+    reset_cookie_jar()
     val = SETCOOKIES[i]
 
     class Srv(ReqSock):
@@ -222,7 +223,7 @@ def x_setcookie(i):
     try:
         out = _run(lambda: ws.connect("ws://example.test/r", socket=sock), "Set-Cookie %r" % val, sock)
     finally:
-        HS.CookieJar.jar.clear()
+        reset_cookie_jar()
     cover("setcookie-" + out.split(":")[0])
 
 
